@@ -236,7 +236,7 @@ class Gen(object):
                 head.append(self.E("base", [], extra=("href",)))
         body = self.flow(depth, frozenset())
         forest = []
-        if r.random() < 0.8:
+        if True:      # a conforming document has a doctype (without one the reader is in quirks mode)
             forest.append(["D", "html", None, None] if r.random() < 0.7 else
                           ["D", "html", "-//W3C//DTD HTML 4.01//EN", r.choice([None, "http://www.w3.org/TR/html4/strict.dtd"])])
         if r.random() < 0.1:
